@@ -1,6 +1,7 @@
 (* C11 -- schema repair changes only what it may, and logs every change.
    ONLY theorem statements closed by `exact`.  Model: Rep/Repair.v (consumes Gen/RepairGen.v); proofs: Rep/RepairFacts.v.
-   orc_int / orc_float are the int()/float() oracle (arbitrary functions here: every theorem holds for every oracle). *)
+   orc_int / orc_float are the int()/float() oracle (arbitrary functions here: every theorem holds for every oracle unless
+   a hypothesis about the oracle is written out in the statement).  orc_float st = Some (repr x, isfinite x, x == 0). *)
 From OV Require Import Base.Strs Rep.Ast Gen.RepairGen Rep.Repair Rep.RepairFacts Rep.Pins_Repair.
 From Coq Require Import ZArith.
 Open Scope N_scope.
@@ -22,7 +23,8 @@ Theorem C11_repair_log_is_diff : forall oi of_ fx sch d,
 Proof. exact repair_log_is_diff. Qed.
 
 (* every entry: casefold to THE unique case-insensitive member of an ENUM of a schema field (which then
-   satisfies ENUM), or text -> finite number for a TYPE[NUMBER] field (int text re-reads to the same integer) *)
+   satisfies ENUM), or text -> finite number for a TYPE[NUMBER] field (int text re-reads to the same integer; a float
+   reported == 0 comes from a literal without a digit 1..9 in its mantissa) *)
 Theorem C11_repair_changes_allowed : forall oi of_ fx sch s d, sch = Some s ->
   Forall (entry_ok oi of_ s) (snd (repair oi of_ fx sch d)).
 Proof. exact repair_changes_allowed. Qed.
@@ -72,19 +74,88 @@ Theorem C11_simple_schema_nonvacuous :
   simple_schema [([69], FChain [COther; CEnum [[65; 98]; [97]]; CType repair_number_type]); ([78], FChain [COther; CType repair_number_type])] = true.
 Proof. exact simple_schema_nonvacuous. Qed.
 
-(* lossless: finite + re-readable are in entry_ok; "a non-zero literal does not become zero" is FALSE (1e-400 -> 0.0) *)
+(* ---- lossless number coercion (after 80b6126: an underflowing literal is no longer coerced to zero) ----
+   C11_repair_lossless: EVERY successful text -> number step, for EVERY oracle, no hypothesis: either the integer that
+   int() read (logged text re-reads to exactly it) or a float the oracle reports finite and, when the oracle reports
+   it == 0, the literal has no digit 1..9 in its mantissa (nonzero_mantissa is computed by the model from the text;
+   closed form: C11_nonzero_mantissa_spec) *)
+Theorem C11_repair_lossless : forall oi of_ v t v' e, attempt_type oi of_ v t = Some (v', e) ->
+  exists s, v = VStr s /\ e_before e = s /\
+    ((exists z, v' = VInt z /\ use_int (strip s) = true /\ oi (strip s) = Some z /\
+                e_after e = Z_to_dec z /\ read_dec (e_after e) = Some z)
+     \/ (exists r zero, v' = VFloat r /\ use_int (strip s) = false /\ e_after e = r /\
+                        of_ (strip s) = Some (r, true, zero) /\
+                        (zero = true -> nonzero_mantissa (strip s) = false))).
+Proof. exact repair_lossless. Qed.
+(* the same for every TYPE_COERCION entry in the log of any document under any schema *)
+Theorem C11_repair_lossless_log : forall oi of_ fx sch s d e, sch = Some s -> In e (snd (repair oi of_ fx sch d)) ->
+  e_rule e = repair_rule_type ->
+  strip (e_before e) <> [] /\
+  ((use_int (strip (e_before e)) = true /\ exists z, oi (strip (e_before e)) = Some z /\ e_after e = Z_to_dec z
+       /\ read_dec (e_after e) = Some z)
+   \/ (use_int (strip (e_before e)) = false /\ exists zero, of_ (strip (e_before e)) = Some (e_after e, true, zero)
+       /\ (zero = true -> nonzero_mantissa (strip (e_before e)) = false))).
+Proof. exact repair_lossless_log. Qed.
+(* an underflowing literal (float() == 0, digit 1..9 in the mantissa) is not coerced; under a chain without ENUM the
+   assignment is returned unchanged with an empty log *)
+Theorem C11_repair_underflow_unrepaired : forall oi of_ s t r fin, use_int (strip s) = false ->
+  of_ (strip s) = Some (r, fin, true) -> nonzero_mantissa (strip s) = true -> attempt_type oi of_ (VStr s) t = None.
+Proof. exact repair_underflow_unrepaired. Qed.
+Theorem C11_repair_underflow_node_unrepaired : forall oi of_ sch k cs s r fin, lookup k sch = Some (FChain cs) ->
+  no_enum cs = true -> use_int (strip s) = false -> of_ (strip s) = Some (r, fin, true) ->
+  nonzero_mantissa (strip s) = true ->
+  repair_node oi of_ sch (NAssign k (VStr s)) = (NAssign k (VStr s), []).
+Proof. exact repair_underflow_node_unrepaired. Qed.
+(* the mantissa test with the generated tables eliminated: a digit 1..9 before the first e/E *)
+Theorem C11_nonzero_mantissa_spec : forall st,
+  nonzero_mantissa st = existsb (fun c => (49 <=? c) && (c <=? 57)) (takeb (fun c => negb ((c =? 101) || (c =? 69))) st).
+Proof. exact nonzero_mantissa_spec. Qed.
+(* regression by computation (was C11_repair_lossless_underflow_refuted before the fix): "1e-400", "-1e-400",
+   " 2.0E-324" read by float() as +-0.0 stay text with an EMPTY log; "0e5", "-0.0e-999" are coerced and logged *)
+Theorem C11_repair_underflow_regression :
+  repair_tbl wit_tbl true (Some wit_number_schema) [NAssign [78] (VStr wit_underflow_text)]
+    = ([NAssign [78] (VStr wit_underflow_text)], [])
+  /\ repair_tbl wit_tbl true (Some wit_number_schema) [NAssign [78] (VStr wit_underflow_neg_text)]
+    = ([NAssign [78] (VStr wit_underflow_neg_text)], [])
+  /\ repair_tbl wit_tbl true (Some wit_number_schema) [NBlock [66] None [NAssign [78] (VStr wit_underflow_upper_text)]]
+    = ([NBlock [66] None [NAssign [78] (VStr wit_underflow_upper_text)]], [])
+  /\ repair_tbl wit_tbl true (Some wit_number_schema) [NAssign [78] (VStr wit_zero_exp_text)]
+    = ([NAssign [78] (VFloat txt_0_0)], [mk_entry repair_rule_type wit_zero_exp_text txt_0_0 repair_tier_type])
+  /\ repair_tbl wit_tbl true (Some wit_number_schema) [NAssign [78] (VStr wit_zero_neg_text)]
+    = ([NAssign [78] (VFloat txt_m0_0)], [mk_entry repair_rule_type wit_zero_neg_text txt_m0_0 repair_tier_type]).
+Proof. exact repair_underflow_regression. Qed.
+
+(* at the level of the LOGGED TEXTS ("a literal with a non-zero mantissa never becomes a zero text").  Unconditionally
+   (for every oracle) this fails only for an oracle that contradicts itself: repr "0.0" with flag "!= 0" *)
 Definition C11_repair_lossless_full : Prop := repair_lossless_full.
-Theorem C11_repair_lossless_underflow_refuted :
+Theorem C11_repair_lossless_inconsistent_oracle_refuted :
   exists oi of_ s d e, In e (snd (repair oi of_ true (Some s) d)) /\ e_rule e = repair_rule_type /\
     zero_text (e_after e) = true /\ nonzero_mantissa (strip (e_before e)) = true.
-Proof. exact repair_lossless_underflow_refuted. Qed.
-Theorem C11_repair_lossless_partial : forall oi of_,
-  (forall st r, of_ st = Some (r, true) -> zero_text r = true -> nonzero_mantissa st = false) ->
+Proof. exact repair_lossless_inconsistent_oracle_refuted. Qed.
+(* float branch: only self-consistency of the oracle (zero repr text -> flagged == 0) is assumed; NOTHING about which
+   literals float() maps to zero *)
+Theorem C11_repair_lossless_text_float : forall oi of_,
+  (forall st r fin zero, of_ st = Some (r, fin, zero) -> zero_text r = true -> zero = true) ->
+  forall s d e, In e (snd (repair oi of_ true (Some s) d)) -> e_rule e = repair_rule_type ->
+    use_int (strip (e_before e)) = false ->
+    zero_text (e_after e) = true -> nonzero_mantissa (strip (e_before e)) = false.
+Proof. exact repair_lossless_text_float. Qed.
+(* both branches (replaces C11_repair_lossless_partial, whose float hypothesis "float() never maps a non-zero literal to
+   zero" is no longer needed); the int hypothesis is a fact of CPython int(), the int branch has no guard *)
+Theorem C11_repair_lossless_text : forall oi of_,
+  (forall st r fin zero, of_ st = Some (r, fin, zero) -> zero_text r = true -> zero = true) ->
   (forall st z, oi st = Some z -> zero_text (Z_to_dec z) = true -> nonzero_mantissa st = false) ->
   forall s d e, In e (snd (repair oi of_ true (Some s) d)) -> e_rule e = repair_rule_type ->
-    repair_rule_type <> repair_rule_enum ->
     zero_text (e_after e) = true -> nonzero_mantissa (strip (e_before e)) = false.
-Proof. exact repair_lossless_partial. Qed.
+Proof. exact repair_lossless_text. Qed.
+(* both hypotheses are computable on an oracle table (the extracted driver evaluates them on the real tables of every
+   run: command `tblok`); they are satisfiable by a non-trivial table *)
+Theorem C11_repair_tbl_lossless_text : forall t, tbl_float_consistent t = true -> tbl_int_zero_ok t = true ->
+  forall s d e, In e (snd (repair_tbl t true (Some s) d)) -> e_rule e = repair_rule_type ->
+    zero_text (e_after e) = true -> nonzero_mantissa (strip (e_before e)) = false.
+Proof. exact repair_tbl_lossless_text. Qed.
+Theorem C11_oracle_hypotheses_nonvacuous : tbl_float_consistent wit_tbl = true /\ tbl_int_zero_ok wit_tbl = true.
+Proof. exact oracle_hypotheses_nonvacuous. Qed.
 Theorem C11_int_text_rereads : forall z, read_dec (Z_to_dec z) = Some z.
 Proof. exact read_dec_Z_to_dec. Qed.
 
@@ -93,6 +164,13 @@ Theorem C11_consumed_tables :
   repair_guards = [1; 2; 3; 4; 5; 6; 7] /\ repair_dispatch = [1; 2] /\ repair_int_branch_chars = [(46, 0); (101, 1)] /\
   repair_caught = [[86; 97; 108; 117; 101; 69; 114; 114; 111; 114]; [79; 118; 101; 114; 102; 108; 111; 119; 69; 114; 114; 111; 114]].
 Proof. exact (conj repair_guards_pin (conj repair_dispatch_pin (conj repair_int_branch_pin repair_caught_pin))). Qed.
+(* float branch: guard ORDER (1 not finite, then 2 zero with non-zero mantissa), split char 'e', on .lower(), digits 1..9;
+   and the source text of the two expressions the translator decomposed *)
+Theorem C11_consumed_float_guards :
+  repair_float_guards = [1; 2] /\
+  (repair_mantissa_split = 101 /\ repair_mantissa_lower = 1 /\ repair_mantissa_digits = [49; 50; 51; 52; 53; 54; 55; 56; 57]) /\
+  repair_mantissa_expr = pinned_repair_mantissa_expr /\ repair_underflow_guard_test = pinned_repair_underflow_guard_test.
+Proof. exact (conj repair_float_guards_pin (conj repair_mantissa_pin (conj pin_repair_mantissa_expr pin_repair_underflow_guard_test))). Qed.
 
 Theorem C11_pin_sources :
   repair_src_attempt_enum_casefold = pinned_repair_src_attempt_enum_casefold /\
